@@ -59,6 +59,18 @@ theorem callbacks_run_unlocked :
         Gkv.Props.Locks.N[i]! ∈ Gkv.Props.Locks.allowedDynUnderLock) :=
   fun x hx i hi => (Gkv.Props.Locks.no_io_or_callback_under_lock x hx i hi).2
 
+/-- "releases the version it pinned", code side (regenerated `Gen/Pins.lean`): every function that
+    reads through a pinned version takes the pin into a local and releases it by `defer` in the
+    next statement, and there is no `rootAddRef` call outside the twelve reviewed sites -/
+theorem pins_released_on_every_path :
+    (∀ f ∈ Gkv.Props.Locks.pinnedReaders, (f, true, true) ∈ Gen.Pins.pins) ∧
+    Gen.Pins.pinSites.length = 12 ∧
+    (Gen.Pins.pinSites.filter (fun x => x.2 == "kept")).map (·.1) =
+      ["Store.Flush", "Store.SetCollection", "Store.Snapshot"] :=
+  ⟨Gkv.Props.Locks.readers_pin_and_unpin,
+   by rw [Gkv.Props.Locks.every_pin_site_is_reviewed]; decide,
+   by rw [Gkv.Props.Locks.every_pin_site_is_reviewed]; decide⟩
+
 -- non-vacuity
 example : outputs [1, 2, 3] [.next, .next, .close, .next] = [.nextTrue 1, .nextTrue 2, .closed, .nextFalse] := by
   decide
